@@ -1,8 +1,913 @@
-import Grass.Proto
-/- Core `Builtins` — stub; replaced by the model (see DESIGN.md §8). -/
+import Grass.Value
+/-
+  C14 core — list, map and string built-ins over `Grass.Value.Value`.
+
+  Mirrors (file:line of /repo at the time of writing)
+    crates/compiler/src/builtin/functions/list.rs    length :3, nth :11, list_separator :45, set_nth :53,
+                                                     append :101, join :146, is_bracketed :216, index :227, zip :238
+    crates/compiler/src/builtin/modules/list.rs      slash :9
+    crates/compiler/src/builtin/functions/map.rs     map_get :18, map_has_key :43, map_keys :74, map_values :86,
+                                                     map_merge :98, map_remove :157, map_set :168
+    crates/compiler/src/builtin/modules/map.rs       deep_merge_impl :10, deep_merge :41, deep_remove :57, modify_map :92
+    crates/compiler/src/builtin/functions/string.rs  to_upper_case :3, to_lower_case :14, str_length :26, quote :38,
+                                                     unquote :49, str_slice :60, str_split :128, str_index :165, str_insert :185
+    crates/compiler/src/ast/args.rs                  get_err :214, max_args :249, default_arg :273, get_variadic :288
+    crates/compiler/src/value/mod.rs                 assert_number_with_name :145, assert_map_with_name :175,
+                                                     assert_string_with_name :192, try_map :324, as_list :435, separator :444
+    crates/compiler/src/value/number.rs              fuzzy_as_int :48, is_positive :106, assert_int :114, is_zero :203
+    crates/compiler/src/value/sass_number.rs         assert_no_units :142, assert_int_with_name :179
+
+  A call is a list of positional argument values (named arguments are outside the model); the
+  result is a value or an error class.  Strings are lists of code points.  Index arguments are
+  finite numbers given by their exact rational value; `±Infinity`/`NaN` indices answer
+  `unsupported`.
+
+  Deviations of the code from the documentation carry one switch each (`Sw`):
+    K14a  `append` takes a map / argument list as ONE element        (list.rs:103)
+    K14b  `join` takes an argument list as ONE element               (list.rs:148, :153)
+    K14c  `nth`/`set-nth` compare `|n| > len` on the raw double, so an index that is an integer
+          only up to 1e-11 and lies just above `len` is rejected      (list.rs:22, :77)
+    K14d  `map.set` with fewer than three arguments does not fail: the key is read from the
+          already consumed slot 0 and becomes `null`                 (map.rs:169–180)
+  Not settled by the documentation and therefore answered `unsupported`: `map.deep-remove`
+  whose last intermediate key is missing (the code inserts `key: null`), `string.split` with an
+  empty string or an empty separator.
+-/
 namespace Grass.Builtins
+open Grass.Value
+
+/-- error classes (messages are compared by class only) -/
+inductive Err where
+  | missingArg | tooManyArgs | notNumber | notString | notMap
+  | indexZero | indexRange | notInt | hasUnits | badSeparator | limitRange
+  | noKey | tooFewElems
+  | unsupported
+  deriving DecidableEq, Repr, Inhabited
+
+def Err.name : Err → String
+  | .missingArg => "missing-arg" | .tooManyArgs => "too-many-args" | .notNumber => "not-number"
+  | .notString => "not-string" | .notMap => "not-map" | .indexZero => "index-zero"
+  | .indexRange => "index-range" | .notInt => "not-int" | .hasUnits => "has-units"
+  | .badSeparator => "bad-separator" | .limitRange => "limit-range" | .noKey => "no-key"
+  | .tooFewElems => "too-few-elems" | .unsupported => "unsupported"
+
+/-- One switch per known deviation; `true` = the documented behaviour. -/
+structure Sw where
+  /-- K14a -/
+  appendAsList : Bool
+  /-- K14b -/
+  joinArgAsList : Bool
+  /-- K14c -/
+  rangeByInt : Bool
+  /-- K14d -/
+  setArity : Bool
+  /-- the equality used for map keys and `index` (C09's switches) -/
+  eq : Grass.Value.Sw
+  deriving DecidableEq, Repr, Inhabited
+
+/-- /repo as it stands -/
+def Sw.now : Sw := ⟨false, false, false, false, Grass.Value.Sw.now⟩
+/-- what the documentation demands -/
+def Sw.spec : Sw := ⟨true, true, true, true, Grass.Value.Sw.spec⟩
+
+abbrev R := Except Err Value
+
+def natV (n : Nat) : Value := .num (.fin (n : Rat)) .none
+
+/-! ### numbers as indices -/
+
+/-- `fuzzy_as_int` (number.rs:48) on a finite value. -/
+def asInt (q : Rat) : Option Int :=
+  if fuzzyEq q ((roundHalfAway q : Int) : Rat) then some (roundHalfAway q) else none
+
+/-- `Number::is_zero` (number.rs:203). -/
+def isZero (q : Rat) : Bool := fuzzyEq q 0
+
+/-- `|q| > len` — on the raw value (`index.num.abs() > Number::from(len)`, derived `PartialOrd`
+    of the `f64` wrapper) or, as documented, on the integer the index denotes. -/
+def tooBig (byInt : Bool) (q : Rat) (len : Nat) : Bool :=
+  if byInt then
+    match asInt q with
+    | some i => decide (len < i.natAbs)
+    | none => decide ((len : Rat) < q.abs)
+  else decide ((len : Rat) < q.abs)
+
+/-- `nth` (list.rs:18–42): 0-based position selected by index `q` in a list of `len` elements.
+    Order of the checks: zero, range, integer. -/
+def nthIndex (sw : Sw) (len : Nat) (q : Rat) : Except Err Nat :=
+  if isZero q then .error .indexZero
+  else if tooBig sw.rangeByInt q len then .error .indexRange
+  else
+    match asInt q with
+    | none => .error .notInt
+    | some i => .ok (if 0 < q then i.toNat - 1 else len - i.natAbs)
+
+/-- `set-nth` (list.rs:69–96).  Order of the checks: zero, integer, range. -/
+def setNthIndex (sw : Sw) (len : Nat) (q : Rat) : Except Err Nat :=
+  if isZero q then .error .indexZero
+  else
+    match asInt q with
+    | none => .error .notInt
+    | some i =>
+      if tooBig sw.rangeByInt q len then .error .indexRange
+      else .ok (if 0 < i then i.toNat - 1 else len - i.natAbs)
+
+/-! ### lists -/
+
+/-- `Value::as_list` as a core list -/
+def elems (v : Value) : List Value := (asList v).toList
+
+def mkList (es : List Value) (sep : Sep) (br : Bool) : Value := .list (VList.ofList es) sep br
+
+def sepName : Sep → List Char
+  | .comma => "comma".toList
+  | .slash => "slash".toList
+  | .space | .undecided => "space".toList
+
+/-- `Value::separator` (value/mod.rs:444). -/
+def separatorOf : Value → Sep
+  | .list _ s _ => s
+  | .map _ => .comma
+  | .arglist _ _ _ => .comma
+  | _ => .space
+
+/-- `length` (list.rs:3). -/
+def lengthF : List Value → R
+  | [] => .error .missingArg
+  | [l] => .ok (natV (elems l).length)
+  | _ => .error .tooManyArgs
+
+/-- `nth` (list.rs:11). -/
+def nthF (sw : Sw) : List Value → R
+  | [] | [_] => .error .missingArg
+  | [l, n] =>
+    match n with
+    | .num (.fin q) _ =>
+      match nthIndex sw (elems l).length q with
+      | .error e => .error e
+      | .ok p =>
+        match (elems l)[p]? with
+        | some v => .ok v
+        | none => .error .indexRange
+    | .num _ _ => .error .unsupported
+    | _ => .error .notNumber
+  | _ => .error .tooManyArgs
+
+/-- how `set-nth` reads its first argument (list.rs:55–64) -/
+def setNthParts : Value → List Value × Sep × Bool
+  | .list es s b => (es.toList, s, b)
+  | .arglist es _ _ => (es.toList, .comma, false)
+  | .map ps => ((pairsAsList ps).toList, .comma, false)
+  | v => ([v], .undecided, false)
+
+/-- `set-nth` (list.rs:53). The value is fetched after the index checks. -/
+def setNthF (sw : Sw) : List Value → R
+  | [] | [_] => .error .missingArg
+  | l :: n :: rest =>
+    if 1 < rest.length then .error .tooManyArgs else
+    match n with
+    | .num (.fin q) _ =>
+      let (es, sep, br) := setNthParts l
+      match setNthIndex sw es.length q with
+      | .error e => .error e
+      | .ok p =>
+        match rest with
+        | [] => .error .missingArg
+        | v :: _ => .ok (mkList (es.set p v) sep br)
+    | .num _ _ => .error .unsupported
+    | _ => .error .notNumber
+
+/-- `$separator` of `append`/`join` (list.rs:108–139, :158–191); `auto` is resolved by the caller. -/
+def sepArg (auto : Sep) : Option Value → Except Err Sep
+  | none => .ok auto
+  | some (.str s _) =>
+    if s = "auto".toList then .ok auto
+    else if s = "comma".toList then .ok .comma
+    else if s = "space".toList then .ok .space
+    else if s = "slash".toList then .ok .slash
+    else .error .badSeparator
+  | some _ => .error .notString
+
+/-- how `append` reads its first argument (list.rs:103–106); documented: every map and
+    argument list counts as a list -/
+def appendParts (sw : Sw) : Value → List Value × Sep × Bool
+  | .list es s b => (es.toList, s, b)
+  | .arglist es kw s =>
+    if sw.appendAsList then (es.toList, .comma, false) else ([.arglist es kw s], .undecided, false)
+  | .map ps =>
+    if sw.appendAsList then ((pairsAsList ps).toList, .comma, false) else ([.map ps], .undecided, false)
+  | v => ([v], .undecided, false)
+
+/-- `append` (list.rs:101). -/
+def appendF (sw : Sw) : List Value → R
+  | [] | [_] => .error .missingArg
+  | l :: v :: rest =>
+    if 1 < rest.length then .error .tooManyArgs else
+    let (es, sep, br) := appendParts sw l
+    match sepArg (if sep = .undecided then .space else sep) rest.head? with
+    | .error e => .error e
+    | .ok s => .ok (mkList (es ++ [v]) s br)
+
+/-- how `join` reads a list argument (list.rs:148–157) -/
+def joinParts (sw : Sw) : Value → List Value × Sep × Bool
+  | .list es s b => (es.toList, s, b)
+  | .map ps => ((pairsAsList ps).toList, .comma, false)
+  | .arglist es kw s =>
+    if sw.joinArgAsList then (es.toList, .comma, false) else ([.arglist es kw s], .undecided, false)
+  | v => ([v], .undecided, false)
+
+/-- the `auto` separator of `join` (list.rs:164–172) -/
+def joinAutoSep (s1 s2 : Sep) : Sep :=
+  if s1 ≠ .undecided then s1 else if s2 ≠ .undecided then s2 else .space
+
+def isTruthy : Value → Bool
+  | .null => false
+  | .bool false => false
+  | _ => true
+
+/-- `$bracketed` of `join` (list.rs:193–209) -/
+def bracketedArg (auto : Bool) : Option Value → Bool
+  | none => auto
+  | some (.str s _) => if s = "auto".toList then auto else true
+  | some v => isTruthy v
+
+/-- `join` (list.rs:146). -/
+def joinF (sw : Sw) : List Value → R
+  | [] | [_] => .error .missingArg
+  | l1 :: l2 :: rest =>
+    if 2 < rest.length then .error .tooManyArgs else
+    let (e1, s1, b1) := joinParts sw l1
+    let (e2, s2, _) := joinParts sw l2
+    match sepArg (joinAutoSep s1 s2) rest.head? with
+    | .error e => .error e
+    | .ok s => .ok (mkList (e1 ++ e2) s (bracketedArg b1 (rest.drop 1).head?))
+
+/-- `min` of the lengths, `0` for no list (list.rs:245). -/
+def minLen : List (List Value) → Nat
+  | [] => 0
+  | [l] => l.length
+  | l :: rest => min l.length (minLen rest)
+
+/-- the first `n` rows of the transposition -/
+def zipRows : Nat → List (List Value) → List Value
+  | 0, _ => []
+  | n + 1, ls => mkList (ls.filterMap List.head?) .space false :: zipRows n (ls.map List.tail)
+
+/-- `zip` (list.rs:238). -/
+def zipF (args : List Value) : R :=
+  let ls := args.map elems
+  .ok (mkList (zipRows (minLen ls) ls) .comma false)
+
+/-- `index` (list.rs:227). -/
+def indexF (sw : Sw) : List Value → R
+  | [] | [_] => .error .missingArg
+  | [l, v] =>
+    match indexOf sw.eq (asList l) v with
+    | some i => .ok (natV (i + 1))
+    | none => .ok .null
+  | _ => .error .tooManyArgs
+
+/-- `list-separator` (list.rs:45). -/
+def separatorF : List Value → R
+  | [] => .error .missingArg
+  | [l] => .ok (.str (sepName (separatorOf l)) false)
+  | _ => .error .tooManyArgs
+
+/-- `is-bracketed` (list.rs:216). -/
+def isBracketedF : List Value → R
+  | [] => .error .missingArg
+  | [.list _ _ b] => .ok (.bool b)
+  | [_] => .ok (.bool false)
+  | _ => .error .tooManyArgs
+
+/-- `list.slash` (modules/list.rs:9). -/
+def slashF : List Value → R
+  | [] => .error .missingArg
+  | args =>
+    let es := match args with
+      | [l] => elems l
+      | _ => args
+    if es.length < 2 then .error .tooFewElems else .ok (mkList es .slash false)
+
+/-! ### maps -/
+
+/-- `try_map` (value/mod.rs:324): `()` and an empty argument list are the empty map. -/
+def tryMap : Value → Option VPairs
+  | .map ps => some ps
+  | .list .nil _ _ => some .nil
+  | .arglist .nil _ _ => some .nil
+  | _ => none
+
+/-- `assert_map_with_name` (value/mod.rs:175). -/
+def assertMap (v : Value) : Except Err VPairs :=
+  match tryMap v with
+  | some m => .ok m
+  | none => .error .notMap
+
+def getD (sw : Sw) (m : VPairs) (k : Value) : Value := (get sw.eq m k).getD .null
+
+/-- the loop of `map_get` (map.rs:28–38) -/
+def getPath (sw : Sw) : List Value → Value → Value
+  | [], v => v
+  | k :: ks, v =>
+    match tryMap v with
+    | none => .null
+    | some m => getPath sw ks (getD sw m k)
+
+/-- `map-get` (map.rs:18). The key is fetched before the map is checked. -/
+def mapGetF (sw : Sw) : List Value → R
+  | [] | [_] => .error .missingArg
+  | m :: k :: ks =>
+    match assertMap m with
+    | .error e => .error e
+    | .ok m => .ok (getPath sw ks (getD sw m k))
+
+/-- the loop of `map_has_key` (map.rs:53–71) -/
+def hasPath (sw : Sw) : List Value → Value → Bool
+  | [], _ => true
+  | k :: ks, v =>
+    match tryMap v with
+    | none => false
+    | some m =>
+      match get sw.eq m k with
+      | none => false
+      | some v' => hasPath sw ks v'
+
+/-- `map-has-key` (map.rs:43). -/
+def mapHasKeyF (sw : Sw) : List Value → R
+  | [] | [_] => .error .missingArg
+  | m :: k :: ks =>
+    match assertMap m with
+    | .error e => .error e
+    | .ok m =>
+      match get sw.eq m k with
+      | none => .ok (.bool false)
+      | some v => .ok (.bool (hasPath sw ks v))
+
+/-- `map-keys` (map.rs:74). -/
+def mapKeysF : List Value → R
+  | [] => .error .missingArg
+  | [m] =>
+    match assertMap m with
+    | .error e => .error e
+    | .ok m => .ok (.list (keys m) .comma false)
+  | _ => .error .tooManyArgs
+
+/-- `map-values` (map.rs:86). -/
+def mapValuesF : List Value → R
+  | [] => .error .missingArg
+  | [m] =>
+    match assertMap m with
+    | .error e => .error e
+    | .ok m => .ok (.list (values m) .comma false)
+  | _ => .error .tooManyArgs
+
+/-- the nested map a key leads to, or a fresh one (map.rs:122–131, :191–200) -/
+def childMap (sw : Sw) (m : VPairs) (k : Value) : VPairs :=
+  match get sw.eq m k with
+  | some (.map m1) => m1
+  | _ => .nil
+
+/-- nested form of `map-merge` (map.rs:118–151) -/
+def mergeNested (sw : Sw) : List Value → VPairs → VPairs → VPairs
+  | [], m, m2 => merge sw.eq m m2
+  | k :: ks, m, m2 => insert sw.eq m k (.map (mergeNested sw ks (childMap sw m k) m2))
+
+/-- `map-merge` (map.rs:98). -/
+def mapMergeF (sw : Sw) : List Value → R
+  | [] => .error .missingArg
+  | [_] => .error .noKey
+  | m1 :: rest =>
+    match assertMap m1 with
+    | .error e => .error e
+    | .ok a =>
+      match assertMap (rest.getLast?.getD .null) with
+      | .error e => .error e
+      | .ok b => .ok (.map (mergeNested sw rest.dropLast a b))
+
+/-- `map-remove` (map.rs:157). -/
+def mapRemoveF (sw : Sw) : List Value → R
+  | [] => .error .missingArg
+  | m :: ks =>
+    match assertMap m with
+    | .error e => .error e
+    | .ok m => .ok (.map (ks.foldl (remove sw.eq) m))
+
+/-- nested form of `map.set` (map.rs:187–218) -/
+def setNested (sw : Sw) : List Value → VPairs → Value → Value → VPairs
+  | [], m, key, val => insert sw.eq m key val
+  | k :: ks, m, key, val => insert sw.eq m k (.map (setNested sw ks (childMap sw m k) key val))
+
+/-- `map.set` (map.rs:168).  As found, the positions of `$key` and `$value` are computed with
+    saturating subtraction and slot 0 has already been replaced by the `null` gravestone. -/
+def mapSetF (sw : Sw) : List Value → R
+  | [] => .error .missingArg
+  | m :: rest =>
+    if sw.setArity && rest.length < 2 then .error .missingArg else
+    match assertMap m with
+    | .error e => .error e
+    | .ok a =>
+      match rest with
+      | [] => .ok (.map (insert sw.eq a .null .null))
+      | [v] => .ok (.map (insert sw.eq a .null v))
+      | _ =>
+        let val := rest.getLast?.getD .null
+        let key := rest.dropLast.getLast?.getD .null
+        .ok (.map (setNested sw rest.dropLast.dropLast a key val))
+
+mutual
+  /-- `for (key, value) in map2 { … result.insert(…) }` of `deep_merge_impl` (modules/map.rs:20–36) -/
+  def dmFold (sw : Sw) : VPairs → VPairs → VPairs
+    | .nil, res => res
+    | .cons k v t, res => dmFold sw t (insert sw.eq res k (dmVal sw v (get sw.eq res k)))
+  /-- the value stored for an incoming `value` when the result already holds `old` under the key -/
+  def dmVal (sw : Sw) : Value → Option Value → Value
+    | .map vm, some old =>
+      match tryMap old with
+      | some rm => .map (dmImpl sw vm rm)
+      | none => .map vm
+    | .list .nil s b, some old =>
+      match tryMap old with
+      | some rm => .map rm
+      | none => .list .nil s b
+    | .arglist .nil kw s, some old =>
+      match tryMap old with
+      | some rm => .map rm
+      | none => .arglist .nil kw s
+    | v, _ => v
+  /-- `deep_merge_impl(map1, map2)` with the arguments swapped (`map2` first, for the recursion) -/
+  def dmImpl (sw : Sw) : VPairs → VPairs → VPairs
+    | .nil, m1 => m1
+    | .cons k v t, m1 =>
+      match m1 with
+      | .nil => .cons k v t
+      | m1 => dmFold sw t (insert sw.eq m1 k (dmVal sw v (get sw.eq m1 k)))
+end
+
+/-- `deep_merge_impl(map1, map2)` (modules/map.rs:10). -/
+def deepMerge (sw : Sw) (m1 m2 : VPairs) : VPairs := dmImpl sw m2 m1
+
+/-- `map.deep-merge` (modules/map.rs:41). -/
+def deepMergeF (sw : Sw) : List Value → R
+  | [] | [_] => .error .missingArg
+  | [m1, m2] =>
+    match assertMap m1 with
+    | .error e => .error e
+    | .ok a =>
+      match assertMap m2 with
+      | .error e => .error e
+      | .ok b => .ok (.map (deepMerge sw a b))
+  | _ => .error .tooManyArgs
+
+/-- the `modify` closure of `deep_remove` (modules/map.rs:70–81) -/
+def dropKey (sw : Sw) (last : Value) (v : Value) : Value :=
+  match tryMap v with
+  | some nm => if contains sw.eq nm last then .map (remove sw.eq nm last) else v
+  | none => v
+
+/-- `modify_nested_map` with `add_nesting = false` (modules/map.rs:100–134); `none` = the last
+    intermediate key is missing (outside the model). -/
+def modNested (sw : Sw) (last : Value) : List Value → VPairs → Option VPairs
+  | [], m => some m
+  | [key], m =>
+    match get sw.eq m key with
+    | none => none
+    | some v => some (insert sw.eq m key (dropKey sw last v))
+  | key :: rest, m =>
+    match (get sw.eq m key).bind tryMap with
+    | none => some m
+    | some nm =>
+      match modNested sw last rest nm with
+      | none => none
+      | some r => some (insert sw.eq m key (.map r))
+
+/-- `map.deep-remove` (modules/map.rs:57). -/
+def deepRemoveF (sw : Sw) : List Value → R
+  | [] | [_] => .error .missingArg
+  | m :: k :: ks =>
+    match assertMap m with
+    | .error e => .error e
+    | .ok a =>
+      let all := k :: ks
+      let last := all.getLast?.getD .null
+      match all.dropLast with
+      | [] => .ok (dropKey sw last (.map a))
+      | init =>
+        match modNested sw last init a with
+        | none => .error .unsupported
+        | some r => .ok (.map r)
+
+/-! ### strings -/
+
+def assertString : Value → Except Err (List Char × Bool)
+  | .str s q => .ok (s, q)
+  | _ => .error .notString
+
+/-- a unitless integer argument (`assert_number_with_name`, `assert_no_units`, `assert_int`) -/
+def intArg : Value → Except Err Int
+  | .num (.fin q) u =>
+    if u ≠ .none then .error .hasUnits else
+    match asInt q with
+    | some i => .ok i
+    | none => .error .notInt
+  | .num _ _ => .error .unsupported
+  | _ => .error .notNumber
+
+/-- `str_slice` (string.rs:78–115) on code points, integer arguments -/
+def sliceCore (s : List Char) (start end_ : Int) : List Char :=
+  let len : Int := s.length
+  let st : Int := if start = 0 then 1 else if 0 < start then min start (len + 1) else max (start + len + 1) 1
+  let e0 : Int := if end_ < 0 then end_ + len + 1 else end_
+  let en : Int := min (max e0 0) (len + 1)
+  if en < st ∨ len < st then [] else (s.drop (st.toNat - 1)).take (en - st + 1).toNat
+
+/-- `str-length` (string.rs:26). -/
+def strLengthF : List Value → R
+  | [] => .error .missingArg
+  | [s] =>
+    match assertString s with
+    | .error e => .error e
+    | .ok (s, _) => .ok (natV s.length)
+  | _ => .error .tooManyArgs
+
+/-- `str-slice` (string.rs:60). -/
+def strSliceF : List Value → R
+  | [] => .error .missingArg
+  | s :: rest =>
+    if 2 < rest.length then .error .tooManyArgs else
+    match assertString s with
+    | .error e => .error e
+    | .ok (s, q) =>
+      match rest with
+      | [] => .error .missingArg
+      | st :: rest2 =>
+        match intArg st with
+        | .error e => .error e
+        | .ok st =>
+          match (match rest2.head? with | none => (Except.ok (-1) : Except Err Int) | some e => intArg e) with
+          | .error e => .error e
+          | .ok en => .ok (.str (sliceCore s st en) q)
+
+/-- position (0-based) of the first occurrence of `sub` (`str::find`, on code points) -/
+def findSub (sub : List Char) : List Char → Option Nat
+  | [] => if sub = [] then some 0 else none
+  | c :: t => if sub.isPrefixOf (c :: t) then some 0 else (findSub sub t).map (· + 1)
+
+/-- `str-index` (string.rs:165). -/
+def strIndexF : List Value → R
+  | [] | [_] => .error .missingArg
+  | [s, sub] =>
+    match assertString s with
+    | .error e => .error e
+    | .ok (s, _) =>
+      match assertString sub with
+      | .error e => .error e
+      | .ok (sub, _) =>
+        match findSub sub s with
+        | some i => .ok (natV (i + 1))
+        | none => .ok .null
+  | _ => .error .tooManyArgs
+
+/-- the closure `insert` of `str_insert` (string.rs:211–224): `ins` goes after the `idx`-th
+    code point (before the first for `idx = 0`); nothing is inserted when `idx > len`. -/
+def insertAfter (s ins : List Char) (idx : Nat) : List Char :=
+  if s.length < idx then s else s.take idx ++ ins ++ s.drop idx
+
+/-- `str_insert` (string.rs:204–233) on code points -/
+def insertCore (s ins : List Char) (index : Int) : List Char :=
+  if s = [] then ins
+  else
+    let len : Int := s.length
+    if 0 < index then insertAfter s ins (min (index - 1) len).toNat
+    else if index = 0 then insertAfter s ins 0
+    else insertAfter s ins (max (len + index + 1) 0).toNat
+
+/-- `str-insert` (string.rs:185). -/
+def strInsertF : List Value → R
+  | [] | [_] | [_, _] => .error .missingArg
+  | [s, ins, idx] =>
+    match assertString s with
+    | .error e => .error e
+    | .ok (s, q) =>
+      match assertString ins with
+      | .error e => .error e
+      | .ok (ins, _) =>
+        match intArg idx with
+        | .error e => .error e
+        | .ok i => .ok (.str (insertCore s ins i) q)
+  | _ => .error .tooManyArgs
+
+/-- `quote` (string.rs:38). -/
+def quoteF : List Value → R
+  | [] => .error .missingArg
+  | [s] =>
+    match assertString s with
+    | .error e => .error e
+    | .ok (s, _) => .ok (.str s true)
+  | _ => .error .tooManyArgs
+
+/-- `unquote` (string.rs:49). -/
+def unquoteF : List Value → R
+  | [] => .error .missingArg
+  | [s] =>
+    match assertString s with
+    | .error e => .error e
+    | .ok (s, _) => .ok (.str s false)
+  | _ => .error .tooManyArgs
+
+/-- `u8::make_ascii_uppercase` on a code point -/
+def upperC (c : Char) : Char := if 'a' ≤ c ∧ c ≤ 'z' then Char.ofNat (c.toNat - 32) else c
+def lowerC (c : Char) : Char := if 'A' ≤ c ∧ c ≤ 'Z' then Char.ofNat (c.toNat + 32) else c
+
+/-- `to-upper-case` (string.rs:3). -/
+def upperF : List Value → R
+  | [] => .error .missingArg
+  | [s] =>
+    match assertString s with
+    | .error e => .error e
+    | .ok (s, q) => .ok (.str (s.map upperC) q)
+  | _ => .error .tooManyArgs
+
+/-- `to-lower-case` (string.rs:14). -/
+def lowerF : List Value → R
+  | [] => .error .missingArg
+  | [s] =>
+    match assertString s with
+    | .error e => .error e
+    | .ok (s, q) => .ok (.str (s.map lowerC) q)
+  | _ => .error .tooManyArgs
+
+/-- `str::splitn(lim + 1, sep)` for a non-empty `sep`: scan left to right, cut at each
+    non-overlapping occurrence while cuts remain.  `skip` = code points of a matched separator
+    still to be dropped, `acc` = the current piece, reversed. -/
+def splitAux (sep : List Char) : Nat → Nat → List Char → List Char → List (List Char)
+  | _, _, acc, [] => [acc.reverse]
+  | lim, skip + 1, acc, _ :: t => splitAux sep lim skip acc t
+  | 0, 0, acc, c :: t => splitAux sep 0 0 (c :: acc) t
+  | lim + 1, 0, acc, c :: t =>
+    if sep.isPrefixOf (c :: t) then acc.reverse :: splitAux sep lim (sep.length - 1) [] t
+    else splitAux sep (lim + 1) 0 (c :: acc) t
+
+/-- `$limit` of `string.split` (string.rs:141–156): `none` = no limit -/
+def limitArg : Option Value → Except Err (Option Nat)
+  | none => .ok none
+  | some .null => .ok none
+  | some (.num (.fin q) _) =>
+    match asInt q with
+    | none => .error .notInt
+    | some i => if i < 1 then .error .limitRange else .ok (some i.toNat)
+  | some (.num _ _) => .error .unsupported
+  | some _ => .error .notNumber
+
+/-- `string.split` (string.rs:128). -/
+def splitF : List Value → R
+  | [] | [_] => .error .missingArg
+  | s :: sep :: rest =>
+    if 1 < rest.length then .error .tooManyArgs else
+    match assertString s with
+    | .error e => .error e
+    | .ok (s, _) =>
+      match assertString sep with
+      | .error e => .error e
+      | .ok (sep, _) =>
+        match limitArg rest.head? with
+        | .error e => .error e
+        | .ok lim =>
+          if s = [] ∨ sep = [] then .error .unsupported
+          else
+            .ok (mkList ((splitAux sep (lim.getD s.length) 0 [] s).map (fun p => Value.str p true)) .comma true)
+
+/-! ### dispatch -/
+
+/-- a call by its global name (`map-set`, `deep-merge`, `deep-remove`, `split`, `slash` name the
+    module-only members) -/
+def call (sw : Sw) (f : String) (args : List Value) : Option R :=
+  if f == "length" then some (lengthF args)
+  else if f == "nth" then some (nthF sw args)
+  else if f == "set-nth" then some (setNthF sw args)
+  else if f == "append" then some (appendF sw args)
+  else if f == "join" then some (joinF sw args)
+  else if f == "zip" then some (zipF args)
+  else if f == "index" then some (indexF sw args)
+  else if f == "list-separator" then some (separatorF args)
+  else if f == "is-bracketed" then some (isBracketedF args)
+  else if f == "slash" then some (slashF args)
+  else if f == "map-get" then some (mapGetF sw args)
+  else if f == "map-has-key" then some (mapHasKeyF sw args)
+  else if f == "map-keys" then some (mapKeysF args)
+  else if f == "map-values" then some (mapValuesF args)
+  else if f == "map-merge" then some (mapMergeF sw args)
+  else if f == "map-remove" then some (mapRemoveF sw args)
+  else if f == "map-set" then some (mapSetF sw args)
+  else if f == "deep-merge" then some (deepMergeF sw args)
+  else if f == "deep-remove" then some (deepRemoveF sw args)
+  else if f == "str-length" then some (strLengthF args)
+  else if f == "str-slice" then some (strSliceF args)
+  else if f == "str-index" then some (strIndexF args)
+  else if f == "str-insert" then some (strInsertF args)
+  else if f == "quote" then some (quoteF args)
+  else if f == "unquote" then some (unquoteF args)
+  else if f == "to-upper-case" then some (upperF args)
+  else if f == "to-lower-case" then some (lowerF args)
+  else if f == "split" then some (splitF args)
+  else none
+
+/-! ### the per-input property predicates (P̂), used by the theorems of GrassProofs/C14.lean on the
+    model's answers and by the driver on the implementation's own answers -/
+
+/-- two answers are the same value (structural identity through the canonical encoding) -/
+def sameV (a b : Value) : Bool := encV a == encV b
+
+def natOf : Value → Option Nat
+  | .num (.fin q) _ => if q.den = 1 ∧ 0 ≤ q.num then some q.num.toNat else none
+  | _ => none
+
+/-- `length(append(l, v)) = length(l) + 1` on the two lengths -/
+def lawLengthAppend (lenL lenR : Value) : Bool :=
+  match natOf lenL, natOf lenR with
+  | some a, some b => b == a + 1
+  | _, _ => false
+
+/-- `length(join(a, b)) = length(a) + length(b)` on the three lengths -/
+def lawLengthJoin (lenA lenB lenR : Value) : Bool :=
+  match natOf lenA, natOf lenB, natOf lenR with
+  | some a, some b, some r => r == a + b
+  | _, _, _ => false
+
+/-- the separator of `join(a, b)` / `join(a, b, $separator)`: `explicit` = the `$separator`
+    argument if given (`auto` counts as given-and-auto) -/
+def joinSepRule (s1 s2 : Sep) (explicit : Option Sep) : Sep :=
+  match explicit with
+  | some s => s
+  | none => if s1 ≠ .undecided then s1 else if s2 ≠ .undecided then s2 else .space
+
+def lawJoinSep (s1 s2 : Sep) (explicit : Option Sep) (resultSepName : Value) : Bool :=
+  sameV resultSepName (.str (sepName (joinSepRule s1 s2 explicit)) false)
+
+/-- `length(zip(ls…)) = min of the lengths` (0 for no list) on the lengths -/
+def lawZipLength (lens : List Value) (lenR : Value) : Bool :=
+  match natOf lenR with
+  | some r =>
+    match lens.mapM natOf with
+    | some [] => r == 0
+    | some (a :: rest) => r == rest.foldl min a
+    | none => false
+  | none => false
+
+def strOf : Value → Option (List Char × Bool)
+  | .str s q => some (s, q)
+  | _ => none
+
+/-- `str-slice(s, 1, k) ++ str-slice(s, k+1, -1) = s`, quotes kept -/
+def lawSliceConcat (s a b : Value) : Bool :=
+  match strOf s, strOf a, strOf b with
+  | some (s, q), some (a, qa), some (b, qb) => decide (a ++ b = s) && (qa == q) && (qb == q)
+  | _, _, _ => false
+
+/-- `str-length(str-slice(s, a, b)) = b - a + 1` for `1 ≤ a ≤ b ≤ length` -/
+def lawLengthSlice (a b : Nat) (lenR : Value) : Bool :=
+  match natOf lenR with
+  | some r => r + a == b + 1
+  | none => false
+
+/-- `str-length(str-insert(s, ins, i)) = str-length(s) + str-length(ins)` on the three lengths -/
+def lawLengthInsert (lenS lenI lenR : Value) : Bool :=
+  match natOf lenS, natOf lenI, natOf lenR with
+  | some a, some b, some r => r == a + b
+  | _, _, _ => false
+
+/-- `sub` occurs in `s` at 0-based position `j` -/
+def occursAt (sub s : List Char) (j : Nat) : Bool := sub.isPrefixOf (s.drop j)
+
+/-- `str-index(s, sub) = i` ⇒ `str-slice(s, i, i + length(sub) - 1) = sub` (contents; `slice` is
+    the implementation's answer to that slice) and `sub` does not occur before `i`;
+    `null` ⇒ `sub` occurs nowhere in `s` -/
+def lawIndexSlice (s sub idx slice : Value) : Bool :=
+  match strOf s, strOf sub with
+  | some (s, _), some (sub, _) =>
+    match idx with
+    | .null => (List.range (s.length + 1)).all (fun j => !occursAt sub s j)
+    | i =>
+      match natOf i, strOf slice with
+      | some i, some (sl, _) =>
+        decide (0 < i) && decide (sl = sub) && occursAt sub s (i - 1) &&
+          (List.range (i - 1)).all (fun j => !occursAt sub s j)
+      | _, _ => false
+  | _, _ => false
+
+/-- `unquote(quote(s))` is `s` unquoted and `quote(unquote(s))` is `s` quoted -/
+def lawUnquoteQuote (s uq qu : Value) : Bool :=
+  match strOf s with
+  | some (s, _) => sameV uq (.str s false) && sameV qu (.str s true)
+  | none => false
+
+/-- `map-get(map-merge(a, b), k)` is `map-get(b, k)` if `b` has `k`, else `map-get(a, k)` -/
+def lawGetMerge (hasB : Value) (getA getB getR : Value) : Bool :=
+  match hasB with
+  | .bool true => sameV getR getB
+  | .bool false => sameV getR getA
+  | _ => false
+
+/-- `map-has-key(map-merge(a, b), k) = map-has-key(a, k) or map-has-key(b, k)` -/
+def lawKeysMerge (hasA hasB hasR : Value) : Bool :=
+  match hasA, hasB, hasR with
+  | .bool x, .bool y, .bool r => r == (x || y)
+  | _, _, _ => false
+
+/-- `map-get(map.set(m, k, v), k) = v` -/
+def lawGetSet (v getR : Value) : Bool := sameV getR v
+
+/-- `map-get(map-remove(m, k), k) = null` and `map-has-key(…) = false` -/
+def lawRemoveGet (getR hasR : Value) : Bool := sameV getR .null && sameV hasR (.bool false)
+
+/-- `nth(set-nth(l, n, v), n) = v` -/
+def lawNthSetNth (v r : Value) : Bool := sameV r v
+
+/-- `nth(l, -k) = nth(l, len - k + 1)` -/
+def lawNthNeg (a b : Value) : Bool := sameV a b
+
+/-- `map.deep-merge(a, b)` at key `k`: both values maps ⇒ the deep merge of the two (`sub` = the
+    implementation's own `deep-merge(get(a,k), get(b,k))`); `b` has `k` otherwise ⇒ `b`'s value;
+    else `a`'s value -/
+def lawDeepMergeGet (hasB getA getB sub getR : Value) : Bool :=
+  match hasB with
+  | .bool false => sameV getR getA
+  | .bool true =>
+    match tryMap getA, tryMap getB with
+    | some _, some _ => sameV getR sub
+    | _, _ => sameV getR getB
+  | _ => false
+
+/-! ### driver -/
+open Grass.Proto
+
+def parseSw? (s : String) : Option Sw :=
+  if s == "1" then some .now else if s == "0" then some .spec else none
+
+def errStr (e : Err) : String :=
+  match e with
+  | .unsupported => "unsupported"
+  | e => "err " ++ e.name
+
+def answer : R → String
+  | .ok v => "ok " ++ encV v
+  | .error e => errStr e
+
+def lawAnswer (b : Bool) : String := if b then "ok holds" else "ok fails"
+
+def optSep? (s : String) : Option (Option Sep) :=
+  if s == "none" then some none else (parseSep? s).map some
 
 def handle : List String → String
+  -- call <asFound:0|1> <fname> <k> <k values> → ok <value> | err <class> | unsupported
+  | "call" :: af :: f :: k :: r =>
+    match parseSw? af, k.toNat? with
+    | some sw, some k =>
+      match parseValues k r with
+      | some args =>
+        match call sw f args with
+        | some res => answer res
+        | none => "bad-op"
+      | none => "bad-op"
+    | _, _ => "bad-op"
+  -- law <name> … → ok holds | ok fails
+  | "law" :: "join_sep" :: s1 :: s2 :: ex :: r =>
+    match parseSep? s1, parseSep? s2, optSep? ex, parseValues 1 r with
+    | some s1, some s2, some ex, some [v] => lawAnswer (lawJoinSep s1 s2 ex v)
+    | _, _, _, _ => "bad-op"
+  | "law" :: "length_slice" :: a :: b :: r =>
+    match a.toNat?, b.toNat?, parseValues 1 r with
+    | some a, some b, some [v] => lawAnswer (lawLengthSlice a b v)
+    | _, _, _ => "bad-op"
+  | "law" :: "zip_length" :: k :: r =>
+    match k.toNat? with
+    | some k =>
+      match parseValues (k + 1) r with
+      | some vs => lawAnswer (lawZipLength (vs.take k) (vs.getD k .null))
+      | none => "bad-op"
+    | none => "bad-op"
+  | "law" :: name :: k :: r =>
+    match k.toNat? with
+    | some k =>
+      match parseValues k r with
+      | some vs =>
+        match name, vs with
+        | "length_append", [a, b] => lawAnswer (lawLengthAppend a b)
+        | "length_join", [a, b, c] => lawAnswer (lawLengthJoin a b c)
+        | "nth_set_nth", [a, b] => lawAnswer (lawNthSetNth a b)
+        | "nth_neg", [a, b] => lawAnswer (lawNthNeg a b)
+        | "slice_concat", [s, a, b] => lawAnswer (lawSliceConcat s a b)
+        | "length_insert", [a, b, c] => lawAnswer (lawLengthInsert a b c)
+        | "index_slice", [s, sub, i, sl] => lawAnswer (lawIndexSlice s sub i sl)
+        | "unquote_quote", [s, a, b] => lawAnswer (lawUnquoteQuote s a b)
+        | "get_merge", [h, a, b, c] => lawAnswer (lawGetMerge h a b c)
+        | "keys_merge", [a, b, c] => lawAnswer (lawKeysMerge a b c)
+        | "get_set", [a, b] => lawAnswer (lawGetSet a b)
+        | "remove_get", [a, b] => lawAnswer (lawRemoveGet a b)
+        | "deep_merge_get", [h, a, b, s, g] => lawAnswer (lawDeepMergeGet h a b s g)
+        | _, _ => "bad-op"
+      | none => "bad-op"
+    | none => "bad-op"
   | _ => "bad-op"
 
 end Grass.Builtins
